@@ -5,6 +5,7 @@ package main
 // committed known-findings file, write evidence, print verdict lines.
 
 import (
+	"os/exec"
 	"encoding/json"
 	"fmt"
 	"go/ast"
@@ -608,7 +609,7 @@ func writeEvidence(id, tier string, seed int64, hs []harnessRef, results []*Harn
 			"obligation_names":              keys(obNames),
 			"queries":                       map[string]int{"total": q.Queries, "sat": q.Sat, "unsat": q.Unsat, "unknown": q.Unknown},
 			"solver_s":                      round3(q.Time.Seconds()),
-			"solver":                        "z3 4.8.12 (-in, incremental push/pop)",
+			"solver":                        solverVersion() + " (one incremental process per harness world, -in, push/pop)",
 			"cuts":                          cuts,
 			"enumerated_dimensions":         chooses,
 			"vacuity_witnesses":             witnesses,
@@ -624,6 +625,9 @@ func writeEvidence(id, tier string, seed int64, hs []harnessRef, results []*Harn
 			"bounds are those written in the harness functions (enumerated_dimensions, cuts) and the engine limits (instructions/decisions per path); nothing is claimed outside them",
 			"counterexamples are replayed against the natively compiled code before being reported",
 		},
+	}
+	if id == "SELF" {
+		return // the engine's self-checks are not a property: no evidence file
 	}
 	os.MkdirAll(filepath.Join(verifDir, "evidence"), 0o755)
 	b, _ := json.MarshalIndent(ev, "", " ")
@@ -644,4 +648,14 @@ func clipVec(v []ndValue) []ndValue {
 		}
 	}
 	return out
+}
+
+// solverVersion asks the solver binary in use for its version string.
+func solverVersion() string {
+	bin := envOr("GOSYM_SOLVER", "z3-new")
+	out, err := exec.Command(bin, "--version").Output()
+	if err != nil {
+		return bin
+	}
+	return bin + ": " + strings.TrimSpace(string(out))
 }
